@@ -17,7 +17,7 @@ class C19(Config):
               "Local Open Scope N_scope.\nLocal Open Scope uint63_scope.")
     bin = "c19"
     release_too = True
-    n_tags = 17
+    n_tags = 19
     classes = {}
     shard_size = 150
     rule = ("equihash::is_valid_solution on: solutions found by an independent Wagner solver in the harness for "
@@ -28,6 +28,7 @@ class C19(Config):
             "distinctness filter on (32,3) (40,4) (48,5) (every collision, ordering and zero-XOR condition holds; only distinct_indices rejects them), "
             "separately those whose left half ends below the right half's first index, plus hand-shaped variants; for the byte-aligned index widths 16 and 24 ((120,7), (184,7)) a first pair of leaves colliding on one segment (birthday search) in both orders; random strings of every length 0..2*len; the (n,k) "
             "grid 0..256 x 0..16, n in 264..600 step 8 x k 0..75 and u32 extremes with solutions of length 0, 1, expected, expected+1. "
+            "Header level (binary c19h): zcash_primitives BlockHeader::read on the mainnet-415000 header, alone and inside its block, through readers returning at most 1/97/300/512/536/1000/random bytes per call and TCP-like segments; truncations (one byte short, inside the last 512 bytes, inside fields and prefix); single-bit flips (every bit of the length prefix, sampled elsewhere); canonical, non-canonical and oversized CompactSize prefixes; the genuine (200,9) proof of work through is_valid_solution. "
             "distinct = distinct case lines; non-trivial = every line is an executed call with its observed outcome and "
             "the BLAKE2b digests computed independently of the crate")
     trusted_base = [
@@ -41,6 +42,7 @@ class C19(Config):
         "model assumes a 64-bit usize; Vec index arithmetic of expand_array is modelled by its written prefix plus an explicit bounds check",
     ]
     assumptions = ["usize is 64 bits (the harness target)",
+                   "std::io::Read::read_exact delivers the next bytes of the stream regardless of how many bytes each read() call returns (the header model has no fragmentation parameter; the harness varies it)",
                    "the BLAKE2b digest has hash_output(n) bytes (guard digests_ok in the theorems)"]
     partial_clauses = [
         "'every single-bit change is rejected' is not a theorem (it holds with overwhelming probability over the hash, not always): "
@@ -48,6 +50,36 @@ class C19(Config):
         "the theorem-level counterpart is C19_solution_encoding_injective (different solutions of the right length decode to different index lists) "
         "together with C19_is_valid_iff",
     ]
+
+    def extra(self, ctx):
+        """Header-level cases: binary c19h (package vwallet, needs zcash_primitives) parses the mainnet-415000
+        header through readers that deliver at most `frag` bytes per read() call, truncated / bit-flipped /
+        re-prefixed variants, and runs the genuine proof of work through the verifier. Its cases go through
+        the same Coq evaluation and verdict as the main ones."""
+        from .. import core
+        from ..runner import parse_harness, classify
+        if any(p.get("kind") == "model" for p in ctx["problems"]):
+            return
+        core.log("[C19] harness (block headers, c19h)")
+        ok, path, out = core.harness_build("c19h", package="vwallet")
+        if not ok:
+            ctx["problems"].append({"kind": "harness", "what": "harness-build (c19h, package vwallet)", "log": out[-6000:]})
+            return
+        rc, out = core.harness_run(path, self.harness_args(ctx["tier"], ctx["seed"]), timeout=self.harness_timeout)
+        cases, stats, other = parse_harness(out)
+        if rc != 0 or not cases:
+            ctx["problems"].append({"kind": "harness", "what": "harness-run (c19h)", "log": "\n".join(other)[-6000:]})
+            return
+        res = core.eval_cases(self.pid + "-h", self.header, self.fns, cases, shard_size=40)
+        cl = [(c, False) for c in cases]
+        classify(self, res, cl, ctx["problems"], ctx["violations"], ctx["known_hits"])
+        ctx["cases"] += cl
+        if ctx.get("res") is not None:
+            for k, v in res.get("tags", {}).items():
+                ctx["res"]["tags"][k] = ctx["res"]["tags"].get(k, 0) + v
+        ctx["extra_evidence"] = {"block_headers": {
+            "binary": "c19h (package vwallet)", "cases": len(cases), "stats": stats[:2],
+            "tag_histogram": {str(k): v for k, v in sorted(res.get("tags", {}).items())}}}
 
     @staticmethod
     def gen():
